@@ -8,6 +8,7 @@ import (
 	"github.com/google/uuid"
 
 	"github.com/gopcua/opcua/ua"
+	"github.com/gopcua/opcua/uasc"
 )
 
 type session struct {
@@ -17,6 +18,11 @@ type session struct {
 	AuthTokenID       *ua.NodeID
 	serverNonce       []byte
 	remoteCertificate []byte
+
+	// activated is set by a successful ActivateSession; channel is the secure
+	// channel the session was (last) activated on.
+	activated bool
+	channel   *uasc.SecureChannel
 
 	PublishRequests chan PubReq
 }
